@@ -6,7 +6,7 @@ set -u
 export GOFLAGS=-mod=mod GOPROXY=off GOSUMDB=off GOTOOLCHAIN=local
 P="$1"; K="$2"; shift 2
 src=/tmp/wt-$P/out
-id="$P-agent$K"
+id="$P-${ROUND:+$ROUND-}agent$K"
 dst=/verif/seeded/$id
 [ -f $src/mutant$K.diff ] || { echo "no $src/mutant$K.diff"; exit 2; }
 scratch=/tmp/wt-verify
